@@ -54,6 +54,17 @@ def run_case(ck: Check, case: dict):
         if len(got) != len(rows) or any(a != b for a, b in zip(got, exp)):
             ck.violation(f"C19/{kind}/wrong-values/{gd.kind}", f"{kind} predictor does not return the number of mismatching positions / zero, in order", dict(rep, expected=exp, observed=got))
             return
+    # a result the caller still holds must not change when the same Predictor scores something else
+    ph = Predictor(g, "hamming")
+    st, first = algos.call(lambda: ph(t))
+    if st == "ok":
+        held = [float(v) for v in np.asarray(first).reshape(-1).tolist()]
+        algos.call(lambda: ph(torch.flip(t, dims=[0])))
+        algos.call(lambda: ph(t[: max(1, len(rows) // 2)]))
+        now = [float(v) for v in np.asarray(first).reshape(-1).tolist()]
+        if now != held or held != [float(w) for w in want]:
+            ck.violation("C19/hamming/result-overwritten", "scores returned earlier changed after the same Predictor scored another set of states", {"case": case, "returned": held, "now": now, "expected": want})
+            return
     # one caller-owned Predictor object through a history of uses (scoring, beam searches in both modes, towards
     # the central state or another destination): afterwards it must still score against the central state
     if case.get("history"):
